@@ -192,13 +192,21 @@ def part_p(i, r, case, lo=0, hi=None):
             else:
                 phys = a0.physical * f
             for pb in bl + bl2:
-                for sem in SEMS:
+                for sem in SEMS + (('real+default', 'log+default') if scale == 'sub' else ()):
                     key = (case, pa, pb, scale, sem)
+                    adef = None
+                    if sem.endswith('+default'):
+                        # the matrix has a non-zero default: every entry the pattern does not back is 1/(8N)
+                        sem = sem[:-len('+default')]
+                        adef = 1.0 / (8 * max(N, 1))
                     S = IR.semiring(sem, 'float64')
                     zero = S.from_int(0).item()
                     try:
                         b0 = P.instantiate(pb, 0., offset=1)
-                        if sem == 'real':
+                        if adef is not None:
+                            a = PatternedTensor((phys * 0.25).clone() if sem == 'real' else (phys * 0.25).log(), a0.paxes, a0.vaxes, adef if sem == 'real' else math.log(adef))
+                            b = PatternedTensor(b0.physical.clone() if sem == 'real' else b0.physical.log(), b0.paxes, b0.vaxes, zero)
+                        elif sem == 'real':
                             a = PatternedTensor(phys.clone(), a0.paxes, a0.vaxes, zero)
                             b = PatternedTensor(b0.physical.clone(), b0.paxes, b0.vaxes, zero)
                         elif sem == 'bool':
